@@ -196,6 +196,7 @@ func C01(p *an.Prog, r *an.Report) {
 	c02SigTypeSource(p, r, "C01.R7")
 	c01NoReorder(p, r)
 	c01DistinctElements(p, r, "C01.R9")
+	c01NoTruncatingCopy(p, r)
 	c01Block(p, r, "C01.R5")
 	c11Threshold(p, r) // R6 (same rule as C11.M5)
 }
@@ -642,7 +643,18 @@ func c01Block(p *an.Prog, r *an.Report, rule string) {
 					continue
 				}
 				if !ok2 {
-					got[fmt.Sprintf("[%d,end)", lo)] = true
+					// open to the end of the input only when the bound really is len(<input>)
+					openEnd := hiA.OK && hiA.C == 0 && len(hiA.Terms) == 1
+					for k, c := range hiA.Terms {
+						if !strings.HasPrefix(k, "len(") || c != 1 {
+							openEnd = false
+						}
+					}
+					if openEnd {
+						got[fmt.Sprintf("[%d,end)", lo)] = true
+					} else {
+						got[fmt.Sprintf("[%d,?)", lo)] = true
+					}
 					continue
 				}
 				got[fmt.Sprintf("[%d,%d)", lo, hi)] = true
@@ -677,6 +689,11 @@ func c01Block(p *an.Prog, r *an.Report, rule string) {
 				var lo, hi int64
 				if n, _ := fmt.Sscanf(g, "[%d,%d)", &lo, &hi); n == 2 && lo >= 384 && hi > lo {
 					bad = append(bad, fmt.Sprintf("P=%d S=%d: fixed window %s after the key block (certificates may be longer than 7 bytes)", pr[0], pr[1], g))
+				}
+				if strings.HasSuffix(g, ",?)") {
+					if n, _ := fmt.Sscanf(g, "[%d,?)", &lo); n == 1 && lo >= 384 {
+						bad = append(bad, fmt.Sprintf("P=%d S=%d: the window starting at %d after the key block ends at a computed offset, not at the end of the input (the certificate's own length field must decide)", pr[0], pr[1], lo))
+					}
 				}
 				if strings.HasSuffix(g, ",end)") {
 					if n, _ := fmt.Sscanf(g, "[%d,end)", &lo); n == 1 && lo > 384 {
@@ -735,6 +752,9 @@ func c01NoReorder(p *an.Prog, r *an.Report) {
 				if callee == nil {
 					continue
 				}
+				if strings.HasSuffix(callee.Name(), "AreSorted") || strings.HasPrefix(callee.Name(), "IsSorted") || strings.HasPrefix(callee.Name(), "Search") {
+					continue // read-only queries
+				}
 				if an.FnPkgPath(callee) == "sort" || an.FnPkgPath(callee) == "slices" && strings.HasPrefix(callee.Name(), "Sort") {
 					out = append(out, an.FnKey(callee)+" at "+p.Pos(c.Pos()))
 				}
@@ -767,6 +787,10 @@ func c01NoReorder(p *an.Prog, r *an.Report) {
 		n++
 		hits := reachSort(wp.ser)
 		r.Check(len(hits) == 0, "C01.R8", wp.key+"/serializer-keeps-order", p.FnPos(wp.ser), "the serializer emits the stored fields without sorting or rebuilding them (unsorted but accepted input re-serialises to itself)", dedupe(hits, 4)...)
+		for _, ps := range wp.parsers {
+			ph := reachSort(ps)
+			r.Check(len(ph) == 0, "C01.R8", wp.key+"/parser-keeps-order/"+ps.Name(), p.FnPos(ps), "the parser stores what it read in the order it read it (no sorting while parsing)", dedupe(ph, 4)...)
+		}
 	}
 	if n < 10 {
 		r.Fail("C01.R8: only %d serializers examined", n)
@@ -840,4 +864,47 @@ func c01DistinctElements(p *an.Prog, r *an.Report, rule string) {
 	}
 	r.Analysed["per-element pointer stores in loops"] = n
 	r.Check(len(bad) == 0 && n > 0, rule, "loops/distinct-elements", "", fmt.Sprintf("every pointer kept per loop iteration (%d sites) refers to an object of that iteration", n), bad...)
+}
+
+// c01NoTruncatingCopy (R10): in the closure of every wire-structure serializer, each copy(dst, src)
+// must have len(dst) >= len(src) on every path (relational bounds proof): a field copied into a
+// buffer sized from something other than the field itself is cut short (or the record is padded),
+// and the bytes written are no longer the bytes parsed.
+func c01NoTruncatingCopy(p *an.Prog, r *an.Report) {
+	b := an.NewBounds(p)
+	b.Axioms = c04IntAxiom
+	seenFn := map[*ssa.Function]bool{}
+	n := 0
+	for _, wp := range wirePairs(p) {
+		if wp.ser == nil {
+			continue
+		}
+		clos := p.Reachable(p.CG(), []*ssa.Function{wp.ser}, func(f *ssa.Function) bool { return an.InLib(f) })
+		var fns []*ssa.Function
+		for f := range clos {
+			if an.InLib(f) && !seenFn[f] {
+				fns = append(fns, f)
+			}
+		}
+		sort.Slice(fns, func(i, j int) bool { return an.FnKey(fns[i]) < an.FnKey(fns[j]) })
+		for _, fn := range fns {
+			seenFn[fn] = true
+			k := 0
+			for _, blk := range fn.Blocks {
+				for _, in := range blk.Instrs {
+					c, ok := in.(*ssa.Call)
+					if !ok || !isBuiltin(c, "copy") || len(c.Call.Args) != 2 {
+						continue
+					}
+					n++
+					k++
+					goal := b.LenOf(c.Call.Args[0]).Add(b.LenOf(c.Call.Args[1]), -1)
+					pr := b.ProveAt(c, goal)
+					r.Check(pr.OK, "C01.R10", fmt.Sprintf("%s/copy%d", an.FnKey(fn), k), p.Pos(c.Pos()),
+						"copy() on a serializer path does not truncate: len(dst) >= len(src) on every path", append([]string{"goal " + goal.String() + " >= 0"}, pr.Trail...)...)
+				}
+			}
+		}
+	}
+	r.Analysed["copies on serializer paths"] = n
 }
